@@ -36,6 +36,7 @@ def main():
         # hang up on idle connections ('k': an unsolicited 421 and end-of-file on a connection that carries no transaction)
         realfd = rnd.random() < 0.34
         r = rdrv.RelayRun(lmtp, pipe, scripts, pool_size=pool_size, idle_timeout=idle, connect=connect, realfd=realfd)
+        r.pool_obs = True
         sched = rnd.choice(SCHEDULES)
         if realfd:
             sched = ''.join(ch + ('k' if ch == 's' and rnd.random() < 0.5 else '') for ch in sched)
